@@ -148,6 +148,15 @@ def check_obligations(ctx, extra_files=()):
             closed.append(n)
         else:
             open_.append((n, blocks[i][:300] if i < len(blocks) else "no output"))
+    if not ctx.quick:
+        # independent re-check of the compiled property file and everything it depends on
+        rc2, out2 = sh("timeout 1500 coqchk -o -Q theories CCT CCT.props.%s" % pid, 1600, COQ)
+        okchk = rc2 == 0 and "Modules were successfully checked" in out2
+        m = re.search(r"\* Axioms:\s*(.*?)\n\s*\n", out2, re.S)
+        ctx.obligations["coqchk"] = {"ok": okchk, "axioms": (m.group(1).strip() if m else "?")[:500]}
+        ctx.notes.append("coqchk -o: %s; axioms: %s" % ("modules successfully checked" if okchk else "FAILED", ctx.obligations["coqchk"]["axioms"]))
+        if not okchk or ctx.obligations["coqchk"]["axioms"] != "<none>":
+            open_.append(("coqchk", out2[-400:]))
     notprinted = [n for n in names if n not in printed]
     ctx.obligations["discharged"] = closed
     ctx.obligations["broken"] = [n for n, _ in open_] + notprinted
